@@ -127,6 +127,18 @@ def noise_scale(pts):
     return 1.0 + 1e-2 * math.sqrt(sf) if sf != math.inf else math.inf
 
 
+def offset_scale(raw_pts):
+    """coordinates far from the origin compared with the size of the simplex lose (offset/size) * 1e-16 in
+    the products with the transform (and the square of that in the 4-D determinant formula)"""
+    d = len(raw_pts[0])
+    big = max(abs(x) for p in raw_pts for x in p)
+    L2 = max(dot(sub(a, b), sub(a, b)) for a, b in itertools.combinations(raw_pts, 2))
+    if L2 == 0:
+        return math.inf
+    r = float(big) / math.sqrt(float(L2))
+    return 1.0 + 1e-2 * r + (1e-4 * r * r if d >= 4 else 0.0)
+
+
 def x_in_circ(pt, simplex_pts, T, detail=False):
     pts = [apply_T(p, T) for p in simplex_pts]
     q = apply_T(pt, T)
@@ -138,7 +150,7 @@ def x_in_circ(pt, simplex_pts, T, detail=False):
     lim = r2 * (1 + EPS) ** 2
     if lim == 0:
         return (None, 0.0, False) if detail else (None, 0.0)
-    margin = abs(float(d2 / lim) - 1.0) / noise_scale(pts)
+    margin = abs(float(d2 / lim) - 1.0) / (noise_scale(pts) * offset_scale(list(simplex_pts) + [pt]))
     if detail:
         return d2 < lim, margin, d2 > r2      # third: the point is strictly OUTSIDE the circumsphere
     return d2 < lim, margin
